@@ -611,6 +611,9 @@ fn gen_wire_message(rng: &mut Rng) -> Vec<u8> {
     const ODD: [&[u8]; 22] = [
         b"%", b"%4", b"%zz", b"%4g", b"%g4", b"%%41", b"%25", b"%C3", b"%C3%A9", b"%c3%a9", b"%FF", b"%ED%A0%80", b"%F4%90%80%80", b"%C0%80", b"%E2%82", b"\xc3\xa9", b"\xc3", b"\xff", b"a b", b"a%20b%", b"%00", b"%e2%82%ac",
     ];
+    if rng.chance(1, 12) {
+        return long_bad_value(rng.range(8, 300) as usize, rng.below(4) as usize, rng.below(6) as usize, true);
+    }
     match rng.below(5) {
         4 => {
             // a peer that escapes as little as it can: `%` and what a header value cannot carry
@@ -645,10 +648,29 @@ fn gen_wire_message(rng: &mut Rng) -> Vec<u8> {
     }
 }
 
+/// A LONG peer-supplied value that does not decode (seed C04f: a "bounded preview" of the offending header cut a
+/// lossily decoded string at a fixed byte offset, and panicked when the offset fell inside a character): `len`
+/// bytes or a little more, ASCII up to `len - off`, then a multi-byte character / a raw non-UTF-8 byte that straddles
+/// offset `len`, more text, and a tail that makes the whole value malformed (`pct`: for grpc-message, a bad percent
+/// escape; otherwise characters outside the base64 alphabet).
+fn long_bad_value(len: usize, off: usize, ch: usize, pct: bool) -> Vec<u8> {
+    const CH: [&[u8]; 6] = [b"\xc3\xa9", b"\xe2\x82\xac", b"\xf0\x9f\x98\x80", b"\xff", b"\xc3", b"\x80\x80\x80"];
+    let fill: &[u8] = if pct { b"abc def-ghi" } else { b"QUJDREVG" };
+    let mut v: Vec<u8> = (0..len.saturating_sub(off)).map(|i| fill[i % fill.len()]).collect();
+    v.extend_from_slice(CH[ch % CH.len()]);
+    v.extend((0..(7 + ch)).map(|i| fill[i % fill.len()]));
+    v.extend_from_slice(CH[(ch + 1) % CH.len()]);
+    v.extend_from_slice(if pct { b"%FF" } else { b"!!" });
+    v
+}
+
 fn gen_wire_details(rng: &mut Rng) -> Vec<u8> {
     const ODD: [&[u8]; 24] = [
         b"!!!", b"A", b"AAAAA", b"A=", b"=", b"==", b"====", b"=AAA", b"AA=A", b"AAAA=", b"AA==AAAA", b"QQ", b"QR", b"QQ=", b"QQ==", b"QQ===", b"QUI", b"QUJ", b"QUI=", b"AA-_", b"AA A", b"AAAA\t", b"\xff\xff", b"QUJD====",
     ];
+    if rng.chance(1, 12) {
+        return long_bad_value(rng.range(8, 300) as usize, rng.below(4) as usize, rng.below(6) as usize, false);
+    }
     match rng.below(4) {
         0 => ODD[rng.below(ODD.len() as u64) as usize].to_vec(),
         1 => b64_unpadded(&gen_details(rng)),
@@ -969,6 +991,23 @@ pub fn generate(tier: &str, rng: &mut Rng) -> Vec<String> {
         }
     }
 
+    // ---- long values that do not decode, a multi-byte character across every power-of-two-ish offset (seed C04f)
+    for len in [15usize, 16, 31, 32, 33, 63, 64, 65, 127, 128, 129, 255, 256, 511, 512, 1023, 1024, 4096, 8192] {
+        for off in 0..4 {
+            for ch in 0..6 {
+                if !thorough && (off + ch + len) % 3 != 0 {
+                    continue;
+                }
+                let code = [b"2".to_vec(), b"0".to_vec(), b"16".to_vec()][(off + ch) % 3].clone();
+                out.push(format!("dec {}", entries_tok(&[kv("grpc-status", &code), kv("grpc-message", &long_bad_value(len, off, ch, true))])));
+                out.push(format!("dec {}", entries_tok(&[kv("grpc-status", &code), kv("grpc-status-details-bin", &long_bad_value(len, off, ch, false))])));
+                out.push(format!(
+                    "infer 200 1 {}",
+                    entries_tok(&[kv("grpc-status", &code), kv("grpc-message", &long_bad_value(len, off, ch, true)), kv("grpc-status-details-bin", &long_bad_value(len, off + 1, ch + 1, false))])
+                ));
+            }
+        }
+    }
     // ---- malformed / arbitrary peer header maps
     let n = if thorough { 200000 } else { 4000 };
     for _ in 0..n {
